@@ -335,6 +335,22 @@ class State:
         return self.heap[name], self.has[name]
 
 
+def has_quantifier(t) -> bool:
+    seen = set()
+    stack = [t]
+    while stack:
+        x = stack.pop()
+        i = x.get_id()
+        if i in seen:
+            continue
+        seen.add(i)
+        if z3.is_quantifier(x):
+            return True
+        if z3.is_app(x):
+            stack.extend(x.children())
+    return False
+
+
 class Interp:
     """Executes ONE path of one top-level function."""
 
@@ -378,14 +394,21 @@ class Interp:
 
     # -- path condition ----------------------------------------------------------
     def assume(self, cond):
-        """Add an assumption; ends the path if it is (syntactically or provably) infeasible."""
+        """Add an assumption; ends the path if it is (syntactically or provably) infeasible.
+        Quantified assumptions are kept for the obligations but not given to the (incremental, short
+        time-out) feasibility solver: fewer assumptions there only means more paths are explored."""
         c = V.concrete_bool(cond)
         if c is True:
             return
         if c is False:
             raise PathEnd("assumption false")
+        if z3.is_and(cond) and has_quantifier(cond):
+            for c2 in cond.children():
+                self.assume(c2)
+            return
         self.st.pc.append(cond)
-        self.solver.add(cond)
+        if not has_quantifier(cond):
+            self.solver.add(cond)
 
     def assume_checked(self, cond):
         self.assume(cond)
@@ -495,7 +518,7 @@ class Interp:
         h, a = self.st.field(name)
         o = self.oid_of(ov)
         self.st.has[name] = z3.Store(a, o, z3.BoolVal(False))
-        self.record_write(("heap", name, o.as_long() if z3.is_int_value(o) else None))
+        self.record_write(("heapdel", name, o.as_long() if z3.is_int_value(o) else None))
 
     def record_write(self, cell):
         for _, s in self.write_recorders:
